@@ -119,3 +119,96 @@ def compare(ctx, cases, impl, model, variant, impl_err="", out_of_scope=()):
         ctx.violation(key, text, {"kind": "failing-input", "op": line, "impl": a, "expected": expected, "model_line": b,
                                   "variant": variant, "stderr": impl_err[-1500:] if a.startswith("FAULT") else ""}, found_input=True)
     return nbad
+
+
+# ----------------------------------------------------------------------------- SM2 curve (hints for the key models)
+SM2_P = 0xFFFFFFFEFFFFFFFFFFFFFFFFFFFFFFFFFFFFFFFF00000000FFFFFFFFFFFFFFFF
+SM2_A = SM2_P - 3
+SM2_B = 0x28E9FA9E9D9F5E344D5A9E4BCF6509A7F39789F515AB8F92DDBCBD414D940E93
+SM2_N = 0xFFFFFFFEFFFFFFFFFFFFFFFFFFFFFFFF7203DF6B21C6052B53BBF40939D54123
+SM2_G = (0x32C4AE2C1F1981195F9904466A39C9948FE30BBFF2660BE1715A4589334C74C7,
+         0xBC3736A2F4F6779C59BDCEE36B692153D0A9877CC62A474002DF32E52139F0A0)
+
+
+def _ec_add(P, Q):
+    if P is None:
+        return Q
+    if Q is None:
+        return P
+    (x1, y1), (x2, y2) = P, Q
+    if x1 == x2:
+        if (y1 + y2) % SM2_P == 0:
+            return None
+        l = (3 * x1 * x1 + SM2_A) * pow(2 * y1, -1, SM2_P) % SM2_P
+    else:
+        l = (y2 - y1) * pow(x2 - x1, -1, SM2_P) % SM2_P
+    x3 = (l * l - x1 - x2) % SM2_P
+    return (x3, (l * (x1 - x3) - y1) % SM2_P)
+
+
+def sm2_mul(k, P=SM2_G):
+    R = None
+    while k:
+        if k & 1:
+            R = _ec_add(R, P)
+        P = _ec_add(P, P)
+        k >>= 1
+    return R
+
+
+def sm2_pub_bytes(d_bytes):
+    """x || y of [d]G for a 32-byte big-endian d (64 zero bytes for the point at infinity)"""
+    R = sm2_mul(int.from_bytes(d_bytes, "big") % SM2_N) if int.from_bytes(d_bytes, "big") % SM2_N else None
+    if R is None:
+        return bytes(64)
+    return R[0].to_bytes(32, "big") + R[1].to_bytes(32, "big")
+
+
+def sm2_octets_ok(o):
+    """what sm2_z256_point_from_octets accepts for 65 octets: 04 || x || y, x,y < p, on the curve, not (0,0)"""
+    if len(o) != 65 or o[0] != 4:
+        return False
+    x, y = int.from_bytes(o[1:33], "big"), int.from_bytes(o[33:], "big")
+    if x >= SM2_P or y >= SM2_P or (x == 0 and y == 0):
+        return False
+    return (y * y - (x * x * x + SM2_A * x + SM2_B)) % SM2_P == 0
+
+
+def scan_strings(b, depth=0):
+    """contents of every OCTET STRING / BIT STRING found by a permissive TLV walk (also inside string contents)"""
+    out = []
+    i = 0
+    while i + 2 <= len(b) and depth < 7:
+        tag, l0 = b[i], b[i + 1]
+        if l0 < 0x80:
+            n, hdr = l0, 2
+        else:
+            k = l0 & 0x7f
+            if k == 0 or k > 4 or i + 2 + k > len(b):
+                break
+            n, hdr = int.from_bytes(b[i + 2:i + 2 + k], "big"), 2 + k
+        body = b[i + hdr:i + hdr + n]
+        if tag in (3, 4):
+            out.append((tag, body))
+        if tag in (0x30, 0x31, 4) or 0xa0 <= tag <= 0xa7:
+            out += scan_strings(body, depth + 1)
+        elif tag == 3 and len(body) > 1:
+            out += scan_strings(body[1:], depth + 1)
+        i += hdr + n
+    return out
+
+
+def key_hints(der):
+    """H= / P= hint tokens for every candidate private scalar / public point occurring in der"""
+    hs, ps = {}, {}
+    for tag, body in scan_strings(der):
+        if tag == 4 and len(body) == 32:
+            hs[body.hex()] = sm2_pub_bytes(body).hex()
+        if tag == 3 and len(body) == 66 and body[0] == 0:
+            ps[body[1:].hex()] = "1" if sm2_octets_ok(body[1:]) else "0"
+    toks = []
+    if hs:
+        toks.append("H=" + ",".join("%s:%s" % kv for kv in hs.items()))
+    if ps:
+        toks.append("P=" + ",".join("%s:%s" % kv for kv in ps.items()))
+    return (" " + " ".join(toks)) if toks else ""
